@@ -264,7 +264,7 @@ ERROR_DROP_TABLE = {
 
 DISCARDING = re.compile(r"^core::result::Result::<T, E>::(ok|unwrap_or|unwrap_or_else|unwrap_or_default|is_ok|is_err|or|or_else|map_or|map_or_else|iter|unwrap_err|expect_err|err)$")
 DISCARD_TABLE = {
-    ("<core::result::Result<T, syn::attr::Meta> as darling_core::from_meta::FromMeta>::from_meta", "map_err"): "see ERROR_DROP_TABLE",
+    ("<core::result::Result<T, syn::attr::Meta> as darling_core::from_meta::FromMeta>::from_meta", "core::result::Result::<T, E>::or_else"): "Result<T, Meta> deliberately replaces the error by the original item (C12)",
     ("<darling_core::util::flag::Flag as darling_core::from_meta::FromMeta>::from_meta", "core::result::Result::<T, E>::unwrap_err"): "extracts the error of <()>::from_meta to return it (not discarded)",
 }
 
